@@ -786,7 +786,7 @@ func runC09(r *harness.Run) {
 	c := &c09Ctx{r: r, keys: keys}
 	depth := 3
 	if r.Thorough() {
-		depth = 5
+		depth = 4 // depth 5 exceeds memory: the frontier alone holds >10^7 histories
 	}
 	r.Rule = fmt.Sprintf("explicit-state BFS over store histories (alphabet: %d keys x %d values x %d store paths + Append) up to depth %d, MaxArrayIndex lowered to %d so the array/hash boundary is reachable; "+
 		"a state is (reference map, white-box dump of array/keys/dict layout); in every distinct state all %d read paths x all keys, three length observers, six traversal drivers, ipairs, and next-traversals with one clear/overwrite at every step are compared with the map model; "+
